@@ -442,7 +442,8 @@ where
             let (props, consumed) = Properties::parse(&data[cursor..])?;
             cursor += consumed;
             validate_puback_properties(&props)?;
-            let prop_len = VariableByteInteger::from_u32(props.size() as u32).unwrap();
+            let prop_len = VariableByteInteger::from_len(props.size())
+                .map_err(|_| MqttError::MalformedPacket)?;
 
             (prop_len, Some(props))
         } else {
@@ -460,7 +461,8 @@ where
 
         let puback = GenericPuback {
             fixed_header: [FixedHeader::Puback.as_u8()],
-            remaining_length: VariableByteInteger::from_u32(remaining_size as u32).unwrap(),
+            remaining_length: VariableByteInteger::from_len(remaining_size)
+                .map_err(|_| MqttError::MalformedPacket)?,
             packet_id_buf,
             reason_code_buf,
             property_length,
